@@ -180,12 +180,14 @@ def file_tok(d): return '-' if d is None else ('empty' if d == b'' else d.hex())
 def dead_tok(dead): return ','.join(sorted(p.hex() for p in dead)) or '-'
 
 class Case:
-    def __init__(s, oracle, cmd, data, dead=(), ops=(), taint=(), stage=''):
+    def __init__(s, oracle, cmd, data, dead=(), ops=(), taint=(), stage='', left=None):
         s.oracle, s.cmd, s.data, s.dead, s.ops, s.taint, s.stage = oracle, cmd, data, frozenset(dead), list(ops), tuple(taint), stage
+        s.left = left          # content of a left-over .ninja_deps.recompact (a recompaction that was killed): must make no difference
         f = file_tok(data)
         if cmd == 'load': s.line = 'load ' + f
         elif cmd == 'recompact': s.line = 'recompact %s %s' % (f, dead_tok(s.dead))
         else: s.line = ' '.join(['session', f, dead_tok(s.dead)] + [op_tok(o) for o in s.ops])
+        s.iline = s.line + (' left=' + file_tok(left) if left is not None else '')      # the model has no such file: same answer expected
         r = ref_load(data)
         s.why = r[2] if r else 'badheader'
         if cmd == 'load': s.ref = fmt_load(data); s.ref_file = None
@@ -205,6 +207,11 @@ class Case:
 
 def parse_case(line, taint=()):
     w = line.split()
+    left = None
+    if w and w[-1].startswith('left='):
+        t = w.pop()[5:]; left = b'' if t == 'empty' else bytes.fromhex(t)
+        c = parse_case(' '.join(w), taint)
+        return Case('replay', c.cmd, c.data, dead=c.dead, ops=c.ops, taint=taint, left=left)
     f = None if w[1] == '-' else (b'' if w[1] == 'empty' else bytes.fromhex(w[1]))
     dl = lambda t: [unhex(x) for x in t.split(',')] if t not in ('-', '') else []
     if w[0] == 'load': return Case('replay', 'load', f, taint=taint)
@@ -311,7 +318,7 @@ def evaluate(st, cases):
     if not cases: return
     lines = [c.line for c in cases]
     t0 = time.time()
-    iout = run_parallel([st.impl, 'depslog'], lines, IMPL_ENV)
+    iout = run_parallel([st.impl, 'depslog'], [c.iline for c in cases], IMPL_ENV)
     t1 = time.time(); st.t_impl += t1 - t0
     mout = run_parallel([st.model], lines, big_stack=True) if st.model else [None] * len(lines)
     st.t_model += time.time() - t1
@@ -403,6 +410,14 @@ def mk_ops(rnd, pool, n, outs=None):
         r = rnd.random()
         if ops and r < 0.15: ops.append(rnd.choice(ops))                                   # identical: possibly "unchanged => no write"
         elif ops and r < 0.30: o, m, i = rnd.choice(ops); ops.append((o, rnd.choice(MTIMES), i))   # same deps, new mtime
+        elif ops and r < 0.42:
+            # same output, same mtime, same NUMBER of deps, every path already known: only the list differs (one entry / order)
+            o, m, i = rnd.choice(ops); i = list(i)
+            known = sorted(set(p for op in ops for p in [op[0]] + op[2]))
+            if len(i) >= 2 and rnd.random() < 0.4:
+                a, b = rnd.sample(range(len(i)), 2); i[a], i[b] = i[b], i[a]
+            elif i: i[rnd.randrange(len(i))] = rnd.choice(known)
+            ops.append((o, m, i))
         else:
             k = rnd.randrange(0, 5)
             ins = rnd.sample(pool, k) if rnd.random() < 0.8 else [rnd.choice(pool) for _ in range(k)]
@@ -473,8 +488,15 @@ def history_rounds(st, hists, final_load=True):
                 f = h['file'] or b''
                 h['file'] = f[:int(s[1] * len(f)) if isinstance(s[1], float) else s[1]] if s[0] == 'cut' else f + s[1]
             if not h['steps']: continue
-            cmd, dead, ops = h['steps'].pop(0)
-            c = Case(h['oracle'], cmd, h['file'], dead, ops, taint=sorted(h['taint']), stage=h['stage'])
+            step = h['steps'].pop(0); cmd, dead, ops = step[:3]; left = None
+            if len(step) > 3 and step[3] is not None:
+                # what a recompaction that was killed left behind: a prefix of the file it was writing, or arbitrary bytes
+                kind, x = step[3]
+                if kind == 'prefix':
+                    full = (ref_recompact_file(h['file'], frozenset(dead)) if h['file'] is not None else None) or HDR
+                    left = full[:max(1, int(x * len(full)))]
+                else: left = x
+            c = Case(h['oracle'], cmd, h['file'], dead, ops, taint=sorted(h['taint']), stage=h['stage'], left=left)
             cases.append(c); owners.append(h)
         evaluate(st, cases)
         active = []
@@ -635,7 +657,10 @@ def run_in(ctx, impl, model):
             r = rnd.random()
             dead = set(rnd.sample(outs, rnd.randrange(0, 3)))
             if r < 0.6: steps.append(('session', dead, mk_ops(rnd, pool, rnd.randrange(1, 5), outs=outs)))
-            elif r < 0.85: steps.append(('recompact', dead, ()))
+            elif r < 0.85:
+                l = rnd.random()
+                steps.append(('recompact', dead, (), None if l < 0.5 else ('prefix', rnd.random()) if l < 0.85 else ('prefix', 1.0) if l < 0.9 else
+                              ('bytes', bytes(rnd.randrange(256) for _ in range(rnd.randrange(0, 24))))))
             else: steps.append(('cut', rnd.random()))
         steps.append(('load', (), ()))
         hists.append(dict(file=None, steps=steps, oracle='sessions-latest-wins', stage='E-history', taint=set()))
@@ -645,6 +670,8 @@ def run_in(ctx, impl, model):
         ops = [(outs[i % nouts], i, [b'h%d' % (i % 5)]) for i in range(total)]
         dead = {outs[0]}
         hists.append(dict(file=None, steps=[('session', (), ops), ('session', dead, [(outs[-1], -7, [b'new'])]), ('load', (), ())],
+                          oracle='recompact-live', stage='E-threshold', taint=set()))
+        hists.append(dict(file=None, steps=[('session', (), ops), ('session', dead, [(outs[-1], -7, [b'new'])], ('prefix', 0.37)), ('load', (), ())],
                           oracle='recompact-live', stage='E-threshold', taint=set()))
         hists.append(dict(file=None, steps=[('session', (), ops), ('tail', b'\x0c\x00'), ('session', dead, [(outs[-1], -7, [b'new'])]), ('load', (), ())],
                           oracle='recompact-live', stage='E-threshold', taint=set()))
@@ -678,7 +705,7 @@ def report(ctx, st, q, **kw):
             out += '# oracle %s: %s\n# input class: %s\n# impl : %s\n# model: %s\n# want : %s\n' % (
                 oracle, detail[:400], ','.join(c.tags()), c.impl[:300], (c.model or '-')[:300], c.ref[:300])
             if c.taint: out += 'taint %s\n' % ','.join(c.taint)
-            out += 'case %s\n' % c.line
+            out += 'case %s\n' % c.iline
         return out
     # -- family: stray size bytes
     g = groups.pop(STRAY, [])
